@@ -65,7 +65,7 @@ def extract (r : Rule) (args : List Val) (atts : List (String × Val)) : Val :=
 abbrev Cache := List (Val × Int)
 
 /-- move `v` to the front with counter `n` -/
-def touch (c : Cache) (v : Val) (n : Int) : Cache := (v, n) :: c.filter (fun p => p.1 ≠ v)
+def touch (c : Cache) (v : Val) (n : Int) : Cache := (v, n) :: c.filter (fun p => !(p.1 == v))
 
 /-- `AddIfAbsent(v, &0)`: (new cache, prior counter if the key existed, whether a key was evicted) -/
 def addIfAbsent (cap : Nat) (c : Cache) (v : Val) : Cache × Option Int × Bool :=
@@ -92,9 +92,12 @@ structure Tc where
   ev : Bool := false           -- ghost: this controller's cache has evicted a key at least once
   deriving Repr, Inhabited
 
-/-- does controller `t` apply to an entry on `res` and which value does it select (`nil` = not limited) -/
+/-- does the rule apply to an entry on `res` and which value does it select (`nil` = not limited) -/
+def Rule.sel (r : Rule) (res : String) (args : List Val) (atts : List (String × Val)) : Val :=
+  if r.res == res && r.conc then extract r args atts else Val.nil
+
 def Tc.sel (t : Tc) (res : String) (args : List Val) (atts : List (String × Val)) : Val :=
-  if t.rule.res == res && t.rule.conc then extract t.rule args atts else Val.nil
+  t.rule.sel res args atts
 
 /-- the check's side effect on the controller: `AddIfAbsent` of the selected value -/
 def Tc.touchFor (t : Tc) (res : String) (args : List Val) (atts : List (String × Val)) : Tc :=
@@ -165,7 +168,7 @@ def exit (s : St) (id : String) : St :=
   | none => s
   | some e =>
     { s with tcs := s.tcs.map (fun t => t.bump e.res e.args e.atts (-1)),
-             live := s.live.filter (fun e => !(e.id == id)) }
+             live := s.live.eraseP (fun e => e.id == id) }
 
 /-- the op language of the correspondence driver, as data (what the theorems quantify over) -/
 inductive Op where
@@ -175,7 +178,9 @@ inductive Op where
   deriving Repr
 
 def step (s : St) : Op → St
-  | .entry id res args atts => (entry s id res args atts).1
+  | .entry id res args atts =>
+    -- an entry id that is still alive is not a well-formed op (the drivers answer `bad-op`)
+    if s.live.any (fun e => e.id == id) then s else (entry s id res args atts).1
   | .exit id => exit s id
   | .flowBlock res => { s with fb := res :: s.fb }
 
@@ -195,7 +200,8 @@ def entryAliased (s : St) (id res : String) (args : List Val) (atts : List (Stri
   entry s' id res args atts
 
 def stepAliased (s : St) : Op → St
-  | .entry id res args atts => (entryAliased s id res args atts).1
+  | .entry id res args atts =>
+    if s.live.any (fun e => e.id == id) then s else (entryAliased s id res args atts).1
   | .exit id => exit s id
   | .flowBlock res => { s with fb := res :: s.fb }
 
